@@ -309,44 +309,25 @@ proof! {
 // ------------------------------------------------------------------ derived enums: constructor index
 
 macro_rules! ctor_index {
-    ($one:ident, $two:ident, $t:ty, $nvariants:expr) => {
+    ($name:ident, $t:ty, $nvariants:expr) => {
         proof! {
-            fn $one() unwind(6) {
-                // 0 (enum record version) ++ one-byte index varint (symbolic) ++ 0 ++ payload
-                let mut data: [u8; 5] = sym::bytes();
-                data[0] = 0;
-                data[1] = data[1] & 0x7f;
-                data[2] = 0;
-                sym::assume(data[1] as u32 >= $nvariants);
+            v0only fn $name() unwind(8) {
+                // 0 (enum record version) ++ constructor index: a fully symbolic varint of up to 5 bytes
+                // ++ zeros (version byte 0 and a zero payload wherever the varint ends)
+                let v: [u8; 5] = sym::bytes();
+                let data: [u8; 12] = [0, v[0], v[1], v[2], v[3], v[4], 0, 0, 0, 0, 0, 0];
+                let mut rd = Rd::new(&data[1..]);
+                let idx = rd.varu();
+                sym::assume(matches!(idx, Some(i) if i >= $nvariants));
                 match desert_core::deserialize::<$t>(&data) {
                     Ok(v) => {
                         std::mem::forget(v);
                         assert!(false, "an unknown constructor index was decoded into a value");
                     }
                     Err(e) => {
-                        cover!(data[1] == 0x7f);
-                        std::mem::forget(e);
-                    }
-                }
-            }
-        }
-        proof! {
-            fn $two() unwind(6) {
-                // two-byte index varint: every index 128..16383 (and non-minimal forms of smaller ones)
-                let mut data: [u8; 6] = sym::bytes();
-                data[0] = 0;
-                data[1] = data[1] | 0x80;
-                data[2] = data[2] & 0x7f;
-                data[3] = 0;
-                let idx = (data[1] & 0x7f) as u32 | ((data[2] as u32) << 7);
-                sym::assume(idx >= $nvariants);
-                match desert_core::deserialize::<$t>(&data) {
-                    Ok(v) => {
-                        std::mem::forget(v);
-                        assert!(false, "an unknown constructor index was decoded into a value");
-                    }
-                    Err(e) => {
-                        cover!(idx == 16383);
+                        cover!(idx == Some(257));
+                        cover!(idx == Some(u32::MAX));
+                        cover!(idx == Some($nvariants));
                         std::mem::forget(e);
                     }
                 }
@@ -355,9 +336,9 @@ macro_rules! ctor_index {
     };
 }
 
-//@ props=C05,C13 tier=quick bounds=E3:every-one-byte-constructor-index>=3 cap=900
-//@ props=C05,C13 tier=quick bounds=E3:every-two-byte-constructor-index>=3 cap=900
-ctor_index!(c13_unknown_index1_e3, c13_unknown_index2_e3, E3, 3);
-//@ props=C05,C13 tier=thorough bounds=ES(sorted):every-one-byte-constructor-index>=3 cap=2400
-//@ props=C05,C13 tier=thorough bounds=ES(sorted):every-two-byte-constructor-index>=3 cap=2400
-ctor_index!(c13_unknown_index1_es, c13_unknown_index2_es, ES, 3);
+//@ props=C05,C13 tier=quick bounds=E3:every-constructor-index>=3(all-varints-up-to-5-bytes);zero-payload cap=900
+ctor_index!(c13_unknown_index_e3, E3, 3);
+//@ props=C05,C13 tier=thorough bounds=ES(sorted):every-constructor-index>=3(all-varints-up-to-5-bytes);zero-payload cap=2400
+ctor_index!(c13_unknown_index_es, ES, 3);
+//@ props=C05,C13 tier=thorough bounds=ETm(transient-in-the-middle):every-constructor-index>=3;zero-payload cap=2400
+ctor_index!(c13_unknown_index_etm, ETm, 3);
